@@ -204,4 +204,4 @@ impl Certificate {
 
 #[cfg(feature = "breard_r_acmed_verif")]
 #[path = "/verif/probe/certificate_probe.rs"]
-mod verif;
+pub(crate) mod verif;
